@@ -32,6 +32,8 @@ class Ctx:
         self.log = []
         self.nreplay = 0
         self.known = load_known()
+        self.sigs_seen = set()
+        self.suppressed = 0
 
     def note(self, s):
         self.log.append(s)
@@ -55,6 +57,10 @@ class Ctx:
                 if line not in self.known_hits:
                     self.known_hits.append(line)
                 return False
+        if sig in self.sigs_seen or len(self.violations) >= 10:
+            self.suppressed += 1
+            return True
+        self.sigs_seen.add(sig)
         replay_obj = dict(replay_obj)
         replay_obj["signature"] = sig
         replay_obj["what"] = text
@@ -227,7 +233,7 @@ def write_evidence(ctx, level, extra_cov=None):
     ev = {
         "property_id": ctx.prop, "tier": ctx.tier, "seed": ctx.seed, "level": level,
         "coverage": cov, "assumptions": ctx.assumptions, "wall_s": round(time.time() - ctx.t0, 2),
-        "violations": len(ctx.violations),
+        "violations": len(ctx.violations), "further_violations_same_signature_or_over_cap": ctx.suppressed,
         "known_findings_hit": ctx.known_hits,
         "log": ctx.log[-60:],
     }
